@@ -72,6 +72,7 @@ class Program:
         self.impl_all = {}         # same key -> [item keys] (name collisions across crates)
         self.enums_by_crate = {}   # crate -> {enum name: variants}
         self.impl_hdr = {}         # item key -> impl header text
+        self.allocs = {}           # (crate, 'allocN') -> name of the static it refers to
         self.closure_of = {}       # (crate, fn name, local) -> closure def path
         self.closure_zst = {}      # (crate, fn name, bb, kept-line index) -> [def paths of zero-sized closure constants, in order]
         self.closure_nup = {}      # (crate, fn name, local) -> number of captured upvars (textual MIR prints only one capture per captured variable)
@@ -84,18 +85,23 @@ class Program:
         if crate in self.crates: return
         self.crates.append(crate)
         path = os.path.join(self.mirdir, crate + '.mir')
-        pk = path + '.pkl'
+        pk = path + '.pkl2'
         if os.path.exists(pk) and os.path.getmtime(pk) >= os.path.getmtime(path):
             try:
-                items = pickle.load(open(pk, 'rb'))
+                items, allocs = pickle.load(open(pk, 'rb'))
                 for it in items: self.items[(crate, it.name)] = it
+                self.allocs.update(allocs)
                 self._load_verbose(crate); self._load_adts(crate)
                 return
             except Exception:
                 pass
-        items = []
+        items = []; allocs = {}
         cur = None; bb = None
         for line in open(path):
+            if line.startswith('alloc'):
+                ma = re.match(r'(alloc\d+) \(static: ([^,]+),', line)
+                if ma: allocs[(crate, ma.group(1))] = ma.group(2)
+                continue
             if line[0] not in ' \n}' and line.startswith(('fn ', 'const ', 'static ')):
                 kind = line.split(' ', 1)[0]
                 rest = line[len(kind) + 1:].rstrip()
@@ -136,9 +142,10 @@ class Program:
             if bb and s and not s.startswith(_SKIP):
                 cur.blocks[bb].append(s)
         try:
-            pickle.dump(items, open(pk, 'wb'))
+            pickle.dump((items, allocs), open(pk, 'wb'))
         except Exception:
             pass
+        self.allocs.update(allocs)
         self._load_verbose(crate); self._load_adts(crate)
 
     def _load_verbose(self, crate):
